@@ -92,20 +92,25 @@ impl<T: Qcow2IoOps> Qcow2Dev<T> {
         self.call_fsync(0, usize::MAX, 0).await?;
 
         for (host_cluster, host_count) in released {
-            // Refcount-release the host cluster(s). For ordinary (non-
-            // compressed) entries this is always a single cluster, but we
-            // pass `host_count` through to mirror the existing free_clusters
-            // call sites in the COW path.
-            self.free_clusters(host_cluster, host_count).await?;
-
             // Punch the host file so the OS reclaims the bytes. The
             // FALLOCATE_ZERO_RANGE flag asks for both hole-punch + reads-as-
             // zero semantics. On filesystems that don't support either,
             // call_fallocate falls back to writing zeros (see `call_fallocate`
             // implementation), so the LBPRZ-equivalent contract still holds.
+            //
+            // The punch has to complete while the cluster is still referenced:
+            // once free_clusters() has run, a concurrent write may be handed
+            // the same host cluster, and a punch landing after that write
+            // would destroy its data.
             let punch_len = host_count * info.cluster_size();
             self.call_fallocate(host_cluster, punch_len, Qcow2OpsFlags::FALLOCATE_ZERO_RANGE)
                 .await?;
+
+            // Refcount-release the host cluster(s). For ordinary (non-
+            // compressed) entries this is always a single cluster, but we
+            // pass `host_count` through to mirror the existing free_clusters
+            // call sites in the COW path.
+            self.free_clusters(host_cluster, host_count).await?;
         }
 
         Ok(())
